@@ -107,7 +107,7 @@ def run(ctx):
                 ctx.violation(dict(sig0, clause="reported-unsatisfiable"), detail, case)
             continue
         if j["den"] == 0:
-            ctx.violation(dict(sig0, clause="answered-unsatisfiable-evidence"), detail, case)
+            ctx.violation(dict(sig0, clause="answered-unsatisfiable-evidence", zero_probability=(r["prob"] == 0.0)), detail, case)
             continue
         if j["bestCons"] == 0:
             ctx.violation(dict(sig0, clause="assignment-violates-evidence"), detail, case)
